@@ -312,7 +312,7 @@ func c12Make(r *prng.R) *c12In {
 		case 0:
 			gi.Unlock, gi.UnlockNil = nil, true
 		case 1:
-			gi.Unlock = r.Bytes(prng.Pick(r, []int{106, 107, 108}))
+			gi.Unlock = r.Bytes(prng.Pick(r, []int{106, 107, 108, 106, 107, 108, 252, 253, 254, 300, 1000, 65535, 65536})) // as signed by the stock unlocker, or by the caller's own (longer scripts, on both sides of the length-prefix classes)
 		}
 		t.Ins = append(t.Ins, gi)
 	}
@@ -462,7 +462,7 @@ func c12MakeEnum(r *prng.R, kinds []string, start string, q mQuote) *c12In {
 		for i := 0; i < nIn; i++ {
 			gi := gen.In{TxID: r.Bytes(32), Vout: uint32(r.Intn(4)), Seq: 0xffffffff, PrevScript: gen.P2PKH(r.Bytes(20)), Unlock: []byte{}}
 			if r.Chance(1, 3) {
-				gi.Unlock = r.Bytes(prng.Pick(r, []int{106, 107, 108}))
+				gi.Unlock = r.Bytes(prng.Pick(r, []int{106, 107, 108, 106, 107, 108, 252, 253, 254, 300, 1000, 65535, 65536})) // as signed by the stock unlocker, or by the caller's own (longer scripts, on both sides of the length-prefix classes)
 			}
 			t.Ins = append(t.Ins, gi)
 		}
